@@ -311,11 +311,11 @@ class H2Drive:
                 self.note_id(op[k])
         if self.runaway:
             return                      # already reported; the rest of the run is not recorded
-        if self.ops and op.get("op") in ("pick", "pickRaise") and self.ops[-1] == op:
-            self.same_pick += 1         # the same stream picked again with nothing in between: no progress is being made
+        if self.ops and op.get("op") in ("pick", "pickRaise") and self.ops[-1].get("op") in ("pick", "pickRaise"):
+            self.same_pick += 1         # picks with nothing in between (each either sends or blocks a stream): no progress is being made
         else:
             self.same_pick = 0
-        if len(self.ops) > OP_BUDGET or self.same_pick > 60:
+        if len(self.ops) > OP_BUDGET or self.same_pick > 100:
             self.runaway = True
             raise Runaway(f"more than {OP_BUDGET} ops; last: {self.ops[-3:]}")
         self.snaps.append(self.snapshot())
